@@ -93,6 +93,27 @@ fn build(seed: u64, i: usize) -> Built {
         project.files[fa].defs.push(hand("SameNameQ", "signal input a ; signal output b ; var never_read = 1 ; b <== a * a ;", &[]));
         project.files[fb].defs.push(hand("SameNameQ", "signal input a ; signal output b ; b <-- a ;", &[]));
     }
+    // a named file whose name differs from another named file's in letter case only
+    if r_shape.chance(1, 12) {
+        let fi = project.named[r_shape.usize(project.named.len())];
+        let twin_path: String = {
+            let p = &project.files[fi].path;
+            let (dir, name) = match p.rfind('/') {
+                Some(k) => (&p[..k + 1], &p[k + 1..]),
+                None => ("", p.as_str()),
+            };
+            let flipped: String = name.chars().enumerate().map(|(k, c)| if k == 0 { if c.is_uppercase() { c.to_lowercase().next().unwrap_or(c) } else { c.to_uppercase().next().unwrap_or(c) } } else { c }).collect();
+            format!("{dir}{flipped}")
+        };
+        if twin_path != project.files[fi].path && !project.files.iter().any(|f| f.path == twin_path) {
+            let mut f = gen::FileUnit::default();
+            f.path = twin_path;
+            f.pragma = Some("2.0.0".into());
+            f.defs.push(hand("CaseTwinQ", "signal input a ; signal output b ; var never_read_q = 2 ; b <-- a ;", &[]));
+            project.files.push(f);
+            project.named.push(project.files.len() - 1);
+        }
+    }
     let style = Style::random(&mut r_style);
     let style_seed = r_style.next_u64();
     let (world, layout) = project.render_with_layout(&mut Rng::new(style_seed), &style);
@@ -129,6 +150,29 @@ fn findings_except(o: &Outcome, world: &World, layout: &Layout, skip: Option<&st
     }
     v.sort();
     v
+}
+
+/// The SARIF document as a sorted list of results (rule, level, message, sorted locations,
+/// sorted related locations) plus the sorted rule ids: what must not differ between two runs
+/// over the same text, whatever order the tool emits things in.
+fn sarif_canon(text: &Option<String>) -> Option<Vec<String>> {
+    let v: Value = serde_json::from_str(text.as_ref()?).ok()?;
+    let mut out = Vec::new();
+    for run in v["runs"].as_array()? {
+        let mut rules: Vec<String> = run["tool"]["driver"]["rules"].as_array().map(|a| a.iter().map(|r| r["id"].to_string()).collect()).unwrap_or_default();
+        rules.sort();
+        out.push(format!("rules {rules:?}"));
+        for r in run["results"].as_array()? {
+            let sorted = |key: &str| -> Vec<String> {
+                let mut l: Vec<String> = r[key].as_array().map(|a| a.iter().map(|x| x.to_string()).collect()).unwrap_or_default();
+                l.sort();
+                l
+            };
+            out.push(format!("{} {} {} {:?} {:?}", r["ruleId"], r["level"], r["message"]["text"], sorted("locations"), sorted("relatedLocations")));
+        }
+    }
+    out.sort();
+    Some(out)
 }
 
 #[derive(Default)]
@@ -256,6 +300,18 @@ fn one(runner: &Runner, seed: u64, i: usize, keys: usize) -> Res {
             if m != x0 {
                 report("hash-order", "same files and options, different hash key".into(), &b.base, &c, &x0, &m, &mut res);
                 break;
+            }
+            if let (Some(s0), Some(s1)) = (sarif_canon(&o0.sarif), sarif_canon(&o.sarif)) {
+                *res.relations.entry("hash-order-sarif").or_default() += 1;
+                if s0 != s1 && res.violation.is_none() {
+                    let d = s0.iter().find(|x| !s1.contains(x)).or_else(|| s1.iter().find(|x| !s0.contains(x))).cloned().unwrap_or_default();
+                    res.violation = Some((
+                        "hash-order:sarif".into(),
+                        format!("same files and options, different hash key: the SARIF documents differ beyond the order of their entries; e.g. {}", d.chars().take(300).collect::<String>()),
+                        json!({"kind": "C17", "relation": "hash-order-sarif", "seed": seed, "index": i, "a": b.base, "b": c}),
+                    ));
+                    break;
+                }
             }
         }
     }
@@ -488,6 +544,13 @@ fn differs(runner: &Runner, a: &Case, b: &Case) -> Option<String> {
     let ma = ms(&oa, &a.world);
     let mb = ms(&ob, &b.world);
     let d = first_difference(&ma, &mb);
+    if d.is_none() && same_text {
+        if let (Some(s0), Some(s1)) = (sarif_canon(&oa.sarif), sarif_canon(&ob.sarif)) {
+            if s0 != s1 {
+                return Some("sarif".into());
+            }
+        }
+    }
     d.as_ref()?;
     Some(diff_key(&d))
 }
@@ -569,7 +632,7 @@ pub fn run(env: &Env) -> i32 {
     cov.insert("reruns_with_equal_findings_but_different_bytes".into(), json!(results.iter().map(|r| r.byte_differences).sum::<usize>()));
     cov.insert("relation_checks".into(), json!(relations));
     {
-        let names = ["replay-identical", "clock-and-aslr", "hash-order", "short-reads", "slow-file", "reorder-definitions", "reorder-files", "missing-file-position", "directory-listing-order", "frame-add", "frame-remove", "stall-isolation"];
+        let names = ["replay-identical", "clock-and-aslr", "hash-order", "hash-order-sarif", "short-reads", "slow-file", "reorder-definitions", "reorder-files", "missing-file-position", "directory-listing-order", "frame-add", "frame-remove", "stall-isolation"];
         let mut probes: Vec<(&str, usize)> = names.iter().map(|k| (*k, relations.get(k).copied().unwrap_or(0))).collect();
         probes.push(("project with two or more analysis orders", results.iter().filter(|r| r.distinct_orders >= 2).count()));
         crate::report::add_probes(&mut cov, &probes);
